@@ -1,5 +1,4 @@
 import GnoVerif.Model.C43
-import Mathlib.Tactic.Ring
 /-! C43 helper lemmas: the packet codec round-trips (`decodePacket (encAny p) = p`) and frames of
     packets with a bounded payload fit `maxPacketMsgSize`. -/
 namespace GnoVerif.C43
@@ -67,7 +66,9 @@ theorem goUvarintAux_put (f : Nat) : ∀ (k n i x s : Nat) (rest : Bytes),
         generalize n % 128 = a at *
         generalize n / 128 = b at *
         subst this
-        ring
+        generalize 2 ^ s = k
+        have h7 : (2 : Nat) ^ 7 = 128 := by decide
+        rw [h7, Nat.add_mul, Nat.add_assoc, Nat.mul_comm k 128, ← Nat.mul_assoc, Nat.mul_comm b 128]
       · simp only [List.length_cons]
         push_cast
         omega
